@@ -233,5 +233,19 @@ func runC19(c *Ctx) error {
 		q := genXQuery(c.Rng, 3, []float64{0.15, 0.4, 0.7}[c.Rng.Intn(3)], 0)
 		c19One(c, m, root, q, c.Rng.Bool())
 	}
+	// through the federation gateway: on random partitions of the C06 field pool the gateway must answer
+	// directive-carrying queries (fields, inline and named fragments, fragments on union members and on the union
+	// itself) like the combined server, for which the rule is checked above
+	gr := c.Rng.Fork()
+	c06QuietKnown = true
+	defer func() { c06QuietKnown = false }()
+	for i := 0; i < c.N(12, 400) && !c.Rep.ShouldStop(); i++ {
+		cs := c06Case{Store: c06GenStore(gr), Partition: c06GenPartition(gr)}
+		for k := 0; k < 25; k++ {
+			cs.Queries = append(cs.Queries, c06GenQuery(gr))
+		}
+		c06One(c, nil, cs)
+		c.Rep.Count("gateway_worlds")
+	}
 	return nil
 }
